@@ -71,7 +71,7 @@ class Check(FormulaCheck):
     ASSUMPTIONS = ('results beyond 1.79e308 (overflow) are not judged; band 1e-9 relative (absolute below 1)',
                    'ACOT on non-positive arguments is judged only through COT(ACOT(x)) = x and |ACOT(x)| <= pi',
                    'outside the domain or for non-numeric text any error code is accepted, never a number',
-                   'PV: (1+r)^n overflowing/underflowing a double is not judged; RANDBETWEEN with integer bounds a <= b')
+                   'PV: where (1+r)^n overflows/underflows a double an error is not judged, a number is; RANDBETWEEN with integer bounds a <= b')
 
     def plan(self, tier, seed):
         q = tier == 'quick'
@@ -289,6 +289,9 @@ class Check(FormulaCheck):
             pmt = rnd.choice([0, -100, 250.5, rnd.uniform(-1000, 1000)])
             fv = rnd.choice([0, 1000, -5000.25, rnd.uniform(-10 ** 5, 10 ** 5)])
             ty = rnd.choice([0, 1])
+            if rnd.random() < 0.12:
+                # horizons over which the growth factor (1+r)^n leaves the doubles altogether, at either end
+                r, n = rnd.choice([-0.5, -0.9, -0.25, 0.05, 1, 0.5, rnd.uniform(-0.9, -0.1)]), rnd.choice([2000, 5000, 20000, -2000, -20000, 100000, rnd.randint(1100, 9000)])
             form = rnd.random()
             if form < 0.6:
                 f = 'PV(v_r,v_n,v_q,v_f,v_t)'
@@ -300,9 +303,14 @@ class Check(FormulaCheck):
             rec.nt(('PV', r, n, pmt, fv, ty, f))
             R, N, P, F = mpf(r), mpf(n), mpf(pmt), mpf(fv)
             g = (1 + R) ** N
-            if g > m.mpf(10) ** 300 or g < m.mpf(10) ** -300:
-                rec.count('skipped.pv-overflow')
-                continue
+            extreme = g > m.mpf(10) ** 300 or g < m.mpf(10) ** -300
+            if extreme:
+                # the library may well give up here (an error is not judged); but a NUMBER it returns is a present value like any other
+                # and has to satisfy the equation.  Only the band in which g is a subnormal double (few significant bits) is left out.
+                if not finite(pv) or m.mpf(10) ** -330 < g < m.mpf(10) ** -300:
+                    rec.count('skipped.pv-overflow')
+                    continue
+                rec.count('pv_numbers_judged_where_the_growth_factor_leaves_the_doubles')
             if not self.expect('C16/PV:not-a-number', finite(pv), rate=r, periods=n, payment=pmt, future=fv, type=ty, got=pv):
                 continue
             V = mpf(pv)
@@ -312,7 +320,7 @@ class Check(FormulaCheck):
                 terms = [V * g, P * (1 + R * ty) * (g - 1) / R, F]
             res = sum(terms)
             scale = max([abs(t) for t in terms] + [1])
-            self.expect('C16/PV:annuity-equation-residual' + (':rate-0' if r == 0 else ''), abs(res) <= m.mpf(1e-9) * scale,
+            self.expect('C16/PV:annuity-equation-residual' + (':rate-0' if r == 0 else '') + (':growth-factor-beyond-the-doubles' if extreme else ''), abs(res) <= m.mpf(1e-9) * scale,
                         rate=r, periods=n, payment=pmt, future=fv, type=ty, pv=pv, residual=float(res), scale=float(scale))
             rec.sample({'formula': f, 'rate': r, 'periods': n, 'payment': pmt, 'future': fv, 'type': ty})
 
